@@ -15,7 +15,15 @@ Oracle (always run): the same tree is evaluated pointwise with NumPy on the
 constituents' values; the real object must agree for __call__, matmul_data,
 expect_data, and - outside the modelled core - copy, pickle, argument
 replacement, division, tensor / superoperator lifts, ket states, Coefficient
-algebra.  A disagreement is localised to a minimal failing sub-tree and
+algebra, and sampled (array) coefficients of orders 0-3 as leaves: their sums,
+products, conj, norm and the merging of terms that share an operator
+(compress / constructor / add_inter) for every relation between the two time
+grids (identical, stretched or shifted by 2^-1 .. 2^-40, longer, refined,
+other order) at time scales 1e-9 .. 1e3, at sample times, midpoints, quarter
+points and outside the range.  The reference for a sampled leaf is that leaf
+evaluated on its own, so only the algebra is judged (exactly for orders 0/1 on
+power-of-two grids, to 1e-12 of the constituents' magnitude otherwise).
+A disagreement is localised to a minimal failing sub-tree and
 attributed to a site by inspecting the real elements.
 """
 import json
@@ -398,7 +406,7 @@ def cmp_mode(x):
     return "tol"
 
 
-def same(got, want, x, t, mag=None):
+def same(got, want, x, t, coef=False, scale=1.0):
     """exact equality where the arithmetic is exact, 1e-12 relative to the
     magnitude of the constituents otherwise (validation-grade comparison)"""
     got, want = np.asarray(got, dtype=complex), np.asarray(want, dtype=complex)
@@ -406,9 +414,9 @@ def same(got, want, x, t, mag=None):
         return False
     if cmp_mode(x) == "exact":
         return bool(np.array_equal(got, want))
-    if mag is None:
-        mag = bound(x, max(1.0, abs(t))) if x and x[0] in TREE_OPS else cbound(x, max(1.0, abs(t)))
-    return bool(np.max(np.abs(got - want)) <= 1e-12 * max(1.0, mag))
+    T = max(1.0, abs(t))
+    mag = cbound(x, T) if coef else bound(x, T)
+    return bool(np.max(np.abs(got - want)) <= 1e-12 * max(1.0, mag) * max(1.0, scale))
 
 
 def coef_np(c, t, w=None):
@@ -519,30 +527,10 @@ def cbound(c, T):
     return cbound(c[1], T) ** 2
 
 
-TREE_OPS = {"const", "pair", "func", "funcw", "list", "add", "sub", "addq", "addnum", "mulnum",
-            "div", "mulcoef", "matmul", "matmulq", "rmatmulq", "neg", "trans", "conj", "dag",
-            "linmap", "compress", "ctor", "copy", "pickle", "args"}
-
-
 def bound(x, T):
     """upper bound on the magnitude of every intermediate entry"""
     def cb(c):
         return cbound(c, T)
-
-    def _unused(c):
-        op = c[0]
-        if op in ("fun", "funw"):
-            b = sum((abs(k[0]) + abs(k[1])) * T ** i for i, k in enumerate(c[1]))
-            return b * (3 if op == "funw" else 1)
-        if op == "const":
-            return abs(c[1][0]) + abs(c[1][1])
-        if op == "sum":
-            return cb(c[1]) + cb(c[2])
-        if op == "mul":
-            return cb(c[1]) * cb(c[2])
-        if op == "conj":
-            return cb(c[1])
-        return cb(c[1]) ** 2
 
     def mb(m):
         return max(abs(e[0]) + abs(e[1]) for e in m)
@@ -927,13 +915,53 @@ def attribute_call(node, t):
                 return SITE_MUL, SIG_MUL
         except Exception as e:     # fall through to the generic site
             pass
+    r = attribute_arr(node, [float(t)])
+    if r:
+        return r
     return "QobjEvo:" + op, "value-differs-from-pointwise-meaning"
+
+
+def attribute_arr(x, times):
+    """is a failure explained by the sum of two sampled coefficients (the
+    fusion of their grids by add_inter)?  Returns (site, signature) or None."""
+    leaves = arr_leaves(x)
+    found = None
+    for a in leaves:
+        for b in leaves:
+            if a is b or len(a[2]) != len(b[2]) or a[3] != b[3]:
+                continue
+            ta, tb = np.array(a[2], dtype=float), np.array(b[2], dtype=float)
+            if np.array_equal(ta, tb):
+                continue
+            try:
+                csum = _arr_new(a) + _arr_new(b)
+                ca, cb_ = arr_leaf(a), arr_leaf(b)
+                ts = list(times) + list(ta) + list(tb) + list((ta[1:] + ta[:-1]) / 2)
+                mag = cbound(a, 1) + cbound(b, 1)
+                bad = any(abs(complex(csum(tt)) - (complex(ca(tt)) + complex(cb_(tt))))
+                          > 1e-12 * max(1.0, mag) for tt in ts)
+            except Exception:
+                bad = True
+            if not bad:
+                continue
+            if np.allclose(ta, tb, rtol=1e-15, atol=1e-15):
+                found = found or (SITE_ADDI, SIG_ADDI_ABS)
+            else:
+                return SITE_ADDI, SIG_ADDI_OTHER
+    return found
 
 
 def oracle_case(ctx, x, t, s, where):
     """the property on one tree: returns number of violations reported"""
     n = 0
     tf = float(t)
+    sscale = 4.0 * max(abs(e[0]) + abs(e[1]) for e in s) ** 2
+
+    def site_for(site, sig):
+        # a failure explained by the fusion of two sampled coefficients' grids
+        r = attribute_arr(x, [tf]) if arr_leaves(x) else None
+        return r if r else (site, sig)
+
     fails = minimal_failing(x, t)
     for node, msg in fails[:3]:
         site, sig = attribute_call(node, t)
@@ -959,7 +987,7 @@ def oracle_case(ctx, x, t, s, where):
                     if all(py_mdt_safe(e, False) for e in elements_of(obj)) else want_k @ _m_np(s)
             else:
                 got_k2 = want_k @ _m_np(s)
-            bad = not (np.array_equal(got_k, want_k) and np.array_equal(got_k2, want_k @ _m_np(s)))
+            bad = not (same(got_k, want_k, x, tk) and same(got_k2, want_k @ _m_np(s), x, tk, scale=sscale))
             msg = "got %s want %s" % (got_k.tolist(), want_k.tolist())
         except Exception as e:
             bad, msg = True, "raises %s: %s" % (type(e).__name__, str(e)[:120])
@@ -974,7 +1002,7 @@ def oracle_case(ctx, x, t, s, where):
                                   {"kind": "call", "tree": node, "t": tk, "found_in": where})
                     n += 1
                 break
-            ctx.violation("QobjEvo.__call__:history", "value-depends-on-previous-calls",
+            ctx.violation(*site_for("QobjEvo.__call__:history", "value-depends-on-previous-calls"),
                           "query %d (t=%d; __call__ or matmul_data) after earlier queries of the same object: %s"
                           % (k, tk, msg),
                           {"kind": "call", "tree": x, "t": t, "state": s, "found_in": where})
@@ -990,7 +1018,7 @@ def oracle_case(ctx, x, t, s, where):
             want = val @ st
             try:
                 got = obj.matmul_data(tf, d).to_array()
-                bad = not np.array_equal(got, want)
+                bad = not same(got, want, x, tf, scale=sscale)
                 msg = "got %s want %s" % (np.asarray(got).tolist(), want.tolist())
                 exc = None
             except Exception as e:
@@ -1001,6 +1029,7 @@ def oracle_case(ctx, x, t, s, where):
                 if (exc is not None and isinstance(exc, TypeError) and "NoneType" in str(exc)
                         and not all(py_mdt_safe(e, False) for e in elements_of(obj))):
                     site, sig = SITE_MDT, SIG_MDT
+                site, sig = site_for(site, sig)
                 ctx.violation(site, sig,
                               "matmul_data(t, state) is not value(t) @ state (%s state, %s): %s"
                               % (fmt, name, msg),
@@ -1013,13 +1042,13 @@ def oracle_case(ctx, x, t, s, where):
                 wante = np.trace(val @ st)
             try:
                 gote = obj.expect_data(tf, d)
-                bad = not (complex(gote) == complex(wante))
+                bad = not same([gote], [wante], x, tf, scale=sscale)
                 msg = "got %r want %r" % (gote, wante)
             except Exception as e:
                 bad = True
                 msg = "raises %s: %s" % (type(e).__name__, str(e)[:120])
             if bad:
-                ctx.violation("QobjEvo.expect_data", "differs-from-expectation-of-value",
+                ctx.violation(*site_for("QobjEvo.expect_data", "differs-from-expectation-of-value"),
                               "expect_data(t, state) differs (%s state, %s): %s" % (fmt, name, msg),
                               {"kind": "expect_data", "tree": x, "t": t, "state": s,
                                "format": fmt, "state_kind": name, "found_in": where})
@@ -1116,19 +1145,33 @@ def _reaches_known_mul(a, times=(1.0, 2.0, -3.0)):
 
 
 def coef_case(ctx, c, t):
-    """Coefficient.__call__(t) of a combination = combination of the values"""
-    tf = float(t)
+    """Coefficient.__call__(t) of a combination = combination of the values
+    of its constituents; t may be a list of times (one object, many queries)"""
+    times = t if isinstance(t, list) else [t]
     try:
-        got = complex(coef_impl(c)(tf))
-        want = complex(coef_np(c, tf))
-        bad = got != want
-        msg = "got %r want %r" % (got, want)
+        obj = coef_impl(c)
     except Exception as e:
-        bad, msg = True, "raises %s: %s" % (type(e).__name__, str(e)[:120])
-    if bad:
-        ctx.violation("Coefficient.__call__", "combination-differs-from-pointwise-value",
-                      "coefficient algebra: " + msg, {"kind": "coef", "coef": c, "t": t})
+        ctx.violation("Coefficient.__call__", "combination-raises",
+                      "coefficient algebra: raises %s: %s" % (type(e).__name__, str(e)[:120]),
+                      {"kind": "coef", "coef": c, "t": times})
         return 1
+    for tk in times:
+        tf = float(tk)
+        try:
+            got = complex(obj(tf))
+            want = complex(coef_np(c, tf))
+            bad = not same([got], [want], c, tf, coef=True)
+            msg = "got %r want %r" % (got, want)
+        except Exception as e:
+            bad, msg = True, "raises %s: %s" % (type(e).__name__, str(e)[:120])
+        if bad:
+            site, sig = "Coefficient.__call__", "combination-differs-from-pointwise-value"
+            r = attribute_arr(c, [tf])
+            if r:
+                site, sig = r
+            ctx.violation(site, sig, "coefficient algebra at t=%r: %s" % (tf, msg),
+                          {"kind": "coef", "coef": c, "t": tf})
+            return 1
     return 0
 
 
@@ -1217,6 +1260,102 @@ def gen_case(rng, ext, quick):
             continue
         return {"tree": x, "t": t, "state": s}
     raise RuntimeError("generator could not produce a bounded tree")
+
+
+SCALES = [2.0 ** -30, 2.0 ** -20, 2.0 ** -10, 1.0, 2.0 ** 10, 1e-9, 1e-6, 1e-3, 3.0, 1e3]
+RELATIONS = (["identical", "longer", "refined", "order"]
+             + [["stretch", k] for k in (1, 4, 10, 17, 20, 30, 40)]
+             + [["shift", m] for m in (1, 10, 20, 30)])
+
+
+def g_arr(rng, scale, order=None, n=None):
+    """sampled coefficient: integer samples on a grid of the given time scale
+    (uniform, or with gaps dt/2, dt, 2dt)"""
+    n = n or rng.choice([2, 3, 5, 9, 17, 51])
+    order = rng.randint(0, 3) if order is None else order
+    dt = scale / 8
+    if rng.random() < 0.65:
+        gaps = [dt] * (n - 1)
+    else:
+        gaps = [dt * rng.choice([0.5, 1.0, 1.0, 2.0]) for _ in range(n - 1)]
+    t0 = dt * rng.choice([0, 0, -2, 3, 8])
+    tl = [t0]
+    for g in gaps:
+        tl.append(tl[-1] + g)
+    ys = [g_gi(rng, lim=3) for _ in range(n)]
+    return ["arr", ys, [float(v) for v in tl], order]
+
+
+def arr_partner(rng, a, rel):
+    """a second sampled coefficient whose grid stands in relation `rel` to a's"""
+    tl = np.array(a[2], dtype=float)
+    n, order = len(tl), a[3]
+    dt = float(np.min(np.diff(tl)))
+    if rel == "identical":
+        t2 = tl
+    elif rel == "longer":
+        t2 = np.concatenate([tl, [tl[-1] + dt]])
+    elif rel == "refined":
+        t2 = np.sort(np.concatenate([tl, (tl[1:] + tl[:-1]) / 2]))
+    elif rel == "order":
+        t2 = tl
+        order = (order + rng.randint(1, 3)) % 4
+    elif rel[0] == "stretch":
+        t2 = tl * (1 + 2.0 ** -rel[1])
+    else:
+        t2 = tl + dt * 2.0 ** -rel[1]
+    ys = [g_gi(rng, lim=3) for _ in range(len(t2))]
+    return ["arr", ys, [float(v) for v in t2], order]
+
+
+def arr_times(rng, leaves, k=4):
+    """sample times, midpoints, quarter points and times outside the range"""
+    ts = []
+    for a in leaves:
+        tl = np.array(a[2], dtype=float)
+        idx = sorted(set([0, len(tl) - 1] + [rng.randrange(len(tl)) for _ in range(k)]))
+        ts += [float(tl[i]) for i in idx]
+        for _ in range(k):
+            i = rng.randrange(len(tl) - 1)
+            ts.append(float((tl[i] + tl[i + 1]) / 2))
+            ts.append(float(tl[i] + (tl[i + 1] - tl[i]) / 4))
+        span = float(tl[-1] - tl[0])
+        ts += [float(tl[0] - span / 2), float(tl[-1] + span / 2)]
+    return ts
+
+
+def sampled_cases(rng, quick):
+    """algebra of sampled coefficients: every grid relation at every scale"""
+    out = []
+    for scale in SCALES:
+        for rel in RELATIONS:
+            for order in ([rng.randint(0, 3)] if quick else [0, 1, 2, 3]):
+                a = g_arr(rng, scale, order=order, n=rng.choice([3, 5, 9, 17, 51]))
+                b = arr_partner(rng, a, rel)
+                times = arr_times(rng, [a, b], 3)
+                extra = rng.choice([["const", g_gi(rng)], ["fun", [g_gi(rng), [1, 0]]],
+                                    g_arr(rng, scale)])
+                coefs = [["sum", a, b], ["sum", b, a], ["mul", a, b],
+                         ["sum", ["conj", a], b], ["norm", ["sum", a, b]],
+                         ["sum", ["sum", a, b], extra], ["mul", ["sum", a, b], ["conj", b]]]
+                for c in (coefs if not quick else [coefs[0]] + rng.sample(coefs[1:], 2)):
+                    out.append({"coef": c, "times": times, "rel": rel, "scale": scale})
+                M, M2 = g_mat(rng), g_mat(rng)
+                trees = [
+                    ["list", [[M, a], [M, b], [M2, None]]],
+                    ["compress", ["add", ["pair", M, a], ["pair", M, b]]],
+                    ["ctor", ["add", ["add", ["pair", M, a], ["const", M2]], ["pair", M, b]]],
+                    ["add", ["pair", M, a], ["pair", M, b]],
+                    ["dag", ["list", [[M, a], [M2, extra], [M, b]]]],
+                    ["mulnum", ["ctor", ["add", ["pair", M, b], ["pair", M, a]]], [1, 1], "l"],
+                    ["matmul", ["list", [[M, a], [M, b]]], ["pair", M2, a]],
+                    ["mulcoef", ["pair", M, a], b, "r"],
+                ]
+                for x in (trees if not quick else rng.sample(trees, 2)):
+                    for t in rng.sample(times, 2):
+                        out.append({"tree": x, "t": t, "state": g_mat(rng), "rel": rel,
+                                    "scale": scale})
+    return out
 
 
 def systematic_cases(maxlen):
@@ -1444,6 +1583,24 @@ def run(ctx):
         t = rng.choice([-3, -2, -1, 0, 1, 2, 3])
         ctx.count_case(("coef", json.dumps(c), t), nontrivial=c[0] not in ("fun", "const"))
         nor += coef_case(ctx, c, t)
+    # sampled (array) coefficients: their algebra and the merging of terms that
+    # share an operator (compress / constructor / add_inter), all grid relations
+    ns = 0
+    sdist = {}
+    for c in sampled_cases(rng, ctx.quick):
+        key = "%s@%g" % (c["rel"] if isinstance(c["rel"], str) else "%s%d" % tuple(c["rel"]),
+                         c["scale"])
+        sdist[key] = sdist.get(key, 0) + 1
+        ns += 1
+        if "coef" in c:
+            ctx.count_case(("sampled-coef", json.dumps(c["coef"])))
+            nor += coef_case(ctx, c["coef"], c["times"])
+        else:
+            ctx.count_case(("sampled-tree", json.dumps(c["tree"]), c["t"]))
+            nor += oracle_case(ctx, c["tree"], c["t"], c["state"], "sampled-stream")
+    dist["sampled"] = {"cases": ns, "relations": len(RELATIONS), "scales": SCALES,
+                       "orders": "0-3", "compare": "exact for order 0/1 on power-of-two grids "
+                       "without polynomial leaves, else 1e-12 relative"}
     kinds = ["add-wrong-dims", "iadd-wrong-dims", "matmul-wrong-dims", "mul-string",
              "add-none", "add-evo-wrong-dims", "imatmul-evo-wrong-dims"]
     nm = 28 if ctx.quick else 210
@@ -1452,7 +1609,8 @@ def run(ctx):
         ctx.count_case(("malformed", kinds[k % len(kinds)], json.dumps(c, sort_keys=True)))
         nor += malformed_case(ctx, c["tree"], c["t"], kinds[k % len(kinds)])
     ctx.log("oracle: %d core + %d extended trees, %d lift pairs, %d coefficient trees, "
-            "%d malformed; %d violation reports" % (len(core_cases), len(ext_cases), nl, nc, nm, nor))
+            "%d sampled-coefficient cases, %d malformed; %d violation reports"
+            % (len(core_cases), len(ext_cases), nl, nc, ns, nm, nor))
 
     if not struct_ok:
         # the set of classes / methods changed: the model may no longer mirror the source
@@ -1481,8 +1639,10 @@ def run(ctx):
         "generated trees (vm_compute on the 2x2 Gaussian instance).  Independently the "
         "property itself is checked on the real objects against NumPy; operations outside "
         "the modelled core (copy, pickle, argument replacement, division, tensor and "
-        "superoperator lifts, ket states, Dia states, Coefficient algebra, malformed "
-        "operands) are covered by that oracle only and are exploration, not obligations.")
+        "superoperator lifts, ket states, Dia states, Coefficient algebra including sampled "
+        "coefficients and add_inter, malformed operands) are covered by that oracle only and "
+        "are exploration, not obligations; comparisons involving sampled coefficients of "
+        "order >= 2 or non power-of-two grids use a 1e-12 relative tolerance (validation).")
 
 
 def replay(ctx, payload):
